@@ -513,6 +513,8 @@ class Ctx:
         return list(self.pc) + list(self.atoms.facts)
 
     def feasible(self, extra):
+        if getattr(self, 'deadline', None) is not None and time.time() > self.deadline:
+            raise Unsupported('exploration time budget exceeded')
         r, _ = check_sat(self.all_constraints() + [extra],
                          timeout_ms=FEAS_TIMEOUT_MS)
         return r != 'unsat'
